@@ -14,10 +14,10 @@ Local Open Scope string_scope.
 Inductive disposition : Type := Repaired | ModelledAsText.
 
 Definition audited_sites : list ((string * string * string) * disposition) := [
-  (* hash director: sha256 of the rendered backend declaration picks the backend; comments inside a
-     backend declaration would change the choice.  Not reachable from VCL today (BACKEND = BACKEND
-     drops the director), listed under "not covered" *)
-  (("interpreter/director.go", "getBackendByHash", "v.Backend.Value"), ModelledAsText);
+  (* hash / client director: the backend is picked by sha256 of a rendering of the backend declaration; since
+     "fix: a comment in a backend declaration changes the backend ..." the rendering is that of a copy
+     without comments (backendHashSource), so this String() call no longer sees comments *)
+  (("interpreter/director.go", "backendHashSource", "c"), Repaired);
   (* next state: identifiers use their Value; the fallback renders a non-identifier, which is never a state *)
   (("interpreter/statement.go", "ProcessReturnStatement", "stmt.ReturnExpression"), Repaired);
   (("linter/statement_linter.go", "lintReturnStatement", "stmt.ReturnExpression"), Repaired);
